@@ -72,6 +72,8 @@ void cmb_condition_destroy(struct cmb_condition *cvp)
     cmi_free(cvp);
 }
 
+static void wakeup_event_condition(void *vp, void *arg);
+
 int64_t cmb_condition_wait(struct cmb_condition *cvp,
                            cmb_condition_demand_func *dmnd,
                            const void *ctx)
@@ -84,6 +86,12 @@ int64_t cmb_condition_wait(struct cmb_condition *cvp,
     const int64_t sig =  cmb_resourceguard_wait(&(cvp->guard),
                                           (cmb_resourceguard_demand_func *)dmnd,
                                           ctx);
+    if (sig != CMB_PROCESS_SUCCESS) {
+        /* Something else ended the wait, cancel our wakeup call if one is on its way */
+        (void)cmb_event_pattern_cancel(wakeup_event_condition,
+                                       cmb_process_current(),
+                                       CMB_ANY_OBJECT);
+    }
 
     cmb_logger_info(stdout, "Condition %s returning signal %" PRIi64, rbp->name, sig);
 
